@@ -86,9 +86,38 @@ class ELIM(claripy.Annotation):
         return f"ELIM({self.tag!r})"
 
 
+class FLEX(claripy.Annotation):
+    """whether it may be dropped or moved is a matter of the instance, not of the class (the flags are per-instance
+    properties in claripy's API)"""
+
+    def __init__(self, tag, elim, reloc):
+        self.tag = tag
+        self._elim = elim
+        self._reloc = reloc
+
+    @property
+    def eliminatable(self):
+        return self._elim
+
+    @property
+    def relocatable(self):
+        return self._reloc
+
+    def __hash__(self):
+        return hash(("FLEX", self.tag, self._elim, self._reloc))
+
+    def __eq__(self, o):
+        return type(o) is FLEX and (o.tag, o._elim, o._reloc) == (self.tag, self._elim, self._reloc)
+
+    def __repr__(self):
+        return f"FLEX({self.tag!r},{'elim' if self._elim else 'keep'},{'reloc' if self._reloc else 'pinned'})"
+
+
 def rand_annotation(rng):
     k = rng.random()
     t = rng.choice(["t0", "t1", 7])
+    if k < 0.12:
+        return FLEX(t, rng.random() < 0.2, rng.random() < 0.5)
     if k < 0.3:
         return NE(t)
     if k < 0.55:
